@@ -482,6 +482,24 @@ D(t, bs, e, ctx) ==
               IF ~h.ok THEN Fail ELSE IF t.ctb /\ h.r # <<>> THEN Fail ELSE Got(h.v, w.r)
     [] t.k = "adapter" -> D(t.c, bs, e, ctx)
 
+\* ------------------------------------------------------- flag words (IntFlag adapters)
+\* A flag class is a member table ms = <<[n |-> name, v |-> value], ...>> in definition order.  Only the
+\* CANONICAL members name bits: single-bit values, first definition of that bit.  A zero member, a second
+\* name for a bit and a multi-bit mask (e.g. ALL = 0x7F) are aliases: they name nothing, so a bit covered
+\* only by a mask is un-named.  The plain-data form of a word n is the names of the canonical members set in
+\* n (definition order) plus ONE left-over integer holding every set bit no canonical member names (absent
+\* when zero); the rich form is the word itself.  Either form determines the word: nothing is dropped.
+IsPow2(n) == n > 0 /\ \E x \in 0..30 : n = Pow2(x)
+Canonical(ms) == SelectSeq([j \in 1..Len(ms) |-> j],
+                           LAMBDA j : IsPow2(ms[j].v) /\ \A x \in 1..(j - 1) : ms[x].v # ms[j].v)
+RECURSIVE SumSeq(_)
+SumSeq(q) == IF q = <<>> THEN 0 ELSE Head(q) + SumSeq(Tail(q))
+FlagPod(ms, n) == LET set == SelectSeq(Canonical(ms), LAMBDA j : BitAnd(n, ms[j].v) # 0)
+                  IN [names |-> [x \in 1..Len(set) |-> ms[set[x]].n],
+                      left |-> n - SumSeq([x \in 1..Len(set) |-> ms[set[x]].v])]
+FlagOfPod(ms, pod) == LET named == SelectSeq(Canonical(ms), LAMBDA j : \E x \in 1..Len(pod.names) : pod.names[x] = ms[j].n)
+                      IN SumSeq([x \in 1..Len(named) |-> ms[named[x]].v]) + pod.left
+
 \* ------------------------------------------------------------- top level API
 Enc(t, v, e) == E(t, v, e, <<>>)
 Dec(t, bs, e) == D(t, bs, e, <<>>)
